@@ -790,11 +790,20 @@ impl QueryHashCache {
         // Hash embedding dimension first
         embedding.len().hash(&mut hasher);
 
-        // Quantize floats to 16-bit for stable hashing
-        // This prevents hash drift from floating-point precision differences
+        // Quantize floats to 1/32768 resolution for stable hashing
+        // This prevents hash drift from floating-point precision differences.
+        // The quantized lane is hashed as i64: an `as i16` cast saturates for
+        // |val| >= 1.0, which made distinct un-normalized (Euclidean) queries such
+        // as [5, 3] and [2, 7] share one cache key.
         for &val in embedding {
-            let quantized = (val * 32768.0).round() as i16;
-            quantized.hash(&mut hasher);
+            let scaled = (f64::from(val) * 32768.0).round();
+            if scaled.abs() < 9.0e18 {
+                (scaled as i64).hash(&mut hasher);
+            } else {
+                // Beyond the i64 range (or non-finite): hash the exact bits.
+                i64::MAX.hash(&mut hasher);
+                val.to_bits().hash(&mut hasher);
+            }
         }
 
         hasher.finish()
